@@ -231,7 +231,7 @@ func errchkRule(c *Ctx, v *vocab, rule, pkg string, floor int) {
 								}
 							}
 						}
-						if a.Kind == EvAssign && a.LObj == errVar {
+						if a.Kind == EvAssign && a.LObj == errVar && ast.Unparen(a.RHS) != ast.Expr(e.Call) {
 							break
 						}
 					}
